@@ -5,7 +5,9 @@
 // @import, @media, nested rules, rules with declarations of their own before / between / after
 // nested rules (also inside @media and in the other sheets), nested rules that are dropped
 // (invalid selector, unsupported pseudo-element), style attribute, presentational hints computed
-// from attributes and given by rules of the hint sheet, non-matching rules and media)
+// from attributes and given by rules of the hint sheet, non-matching rules and media, and the
+// media-dependent constructs again INSIDE sheets reached through @import: @media blocks and
+// media-qualified @imports of imported sheets, each on the print and on the screen device)
 // declaring the same property on one probe element, in every container arrangement,
 // against a reference comparator written from CSS Cascade 4 / CSS Nesting. Observed through
 // tree.NewHTML + tree.GetAllComputedStyles on the real code.
@@ -61,6 +63,9 @@ func (c *check) Init(tier string, seed int64) engine.Space {
 				c.pairCfg = append(c.pairCfg, config{p, h, "screen"})
 			}
 			c.tripCfg = append(c.tripCfg, config{p, h, "print"})
+			if h && p == 0 {
+				c.tripCfg = append(c.tripCfg, config{p, h, "screen"})
+			}
 		}
 	}
 	n, r := int64(len(c.full)), int64(len(c.red))
@@ -106,8 +111,9 @@ func (c *check) Init(tier string, seed int64) engine.Space {
 			"multi_match_selector_lists": "the selector lists after #z,T are instantiated for the ua, user, style, nest& and nestrel carriers (triples: style only)",
 			"importance":                 []string{"normal", "!important (except UA sheet and hints)"},
 			"declaration_block_shapes":   "d = the carrier's declaration, n = the nested rule holding it, F = a declaration of another property, N = a nested rule of another property, X = a nested rule with an invalid selector (&:bogus), U = a nested rule for a parsed but unsupported pseudo-element (&::selection): d, dX, Xd, dU, Ud, {Xn}, {Un}, dNF, FNd, dN, Nd, NdN, FNdNF, {n}, {nF}, {FnF}, {NnF}, {n:dNF}; the merge arrangement concatenates the blocks of adjacent carriers (e.g. d!+Nd = S{P:a!important;&{top:0}P:b}); dNF also in the ua, user, <link>, @import sheets and inside @media",
-			"arrangements":               []string{"share", "split", "merge (also merges adjacent @media blocks of the same query)"}, "hints": []string{"on", "off"}, "device_media": []string{"print", "screen (pairs with hints on only)"},
-			"list_length": map[string]int{"quick": 2, "thorough": 3},
+			"arrangements":               []string{"share", "split", "merge (also merges adjacent @media blocks of the same query)"}, "hints": []string{"on", "off"}, "device_media": []string{"print", "screen (pairs with hints on; triples for color with hints on)"},
+			"media_carriers": "every media-dependent carrier kind is explored on both devices: @media in <style> and in <link> sheets, media= on <style>/<link>, @import with a media list, and the same constructs INSIDE sheets reached through @import (an @media block in an imported sheet at depth 1 and 2, from <style> and <link>; a media list on an @import written inside an imported sheet; a media list on the @import crossed with an @media block inside the imported sheet; media= crossed with @media)",
+			"list_length":    map[string]int{"quick": 2, "thorough": 3},
 		},
 		Assumptions: []string{
 			"one probe element per document; the cascade of an element does not depend on other elements",
@@ -117,7 +123,7 @@ func (c *check) Init(tier string, seed int64) engine.Space {
 			"for the properties whose hint is given by a rule of the hint sheet only (list-style-type, vertical-align, clear) only the cases holding the hint are explored",
 			"triples containing no presentational hint are explored with hints on only (hints off changes nothing for them but the absence of the hints sheet, which the pair space covers)",
 		},
-		BudgetS: map[string]float64{"quick": 200, "thorough": 1200}[tier],
+		BudgetS: map[string]float64{"quick": 300, "thorough": 1500}[tier],
 	}
 }
 
